@@ -571,6 +571,28 @@ func TestValidateMutations(t *testing.T) {
 			*m.GlobalVariables[1].Binding = *m.GlobalVariables[0].Binding
 		}},
 		{"ir.Validate complains", RuleNagaValidate, func(m *ir.Module) { m.EntryPoints[1].Name = m.EntryPoints[0].Name }},
+		// (the statement rules have their own base module and mutations in validate_stmt_test.go)
+		{"call statement removed: its result has no producer", RuleStmtResult, func(m *ir.Module) {
+			fn := mainFn(m)
+			editStmt((*[]ir.Statement)(&fn.Body), func(b *[]ir.Statement, i int) bool {
+				if c, ok := (*b)[i].Kind.(ir.StmtCall); ok && c.Result != nil {
+					*b = append((*b)[:i:i], (*b)[i+1:]...)
+					return true
+				}
+				return false
+			})
+		}},
+		{"barrier with unknown flags", RuleStmtOperand, func(m *ir.Module) {
+			fn := mainFn(m)
+			editStmt((*[]ir.Statement)(&fn.Body), func(b *[]ir.Statement, i int) bool {
+				if k, ok := (*b)[i].Kind.(ir.StmtBarrier); ok {
+					k.Flags |= 1 << 9
+					(*b)[i].Kind = k
+					return true
+				}
+				return false
+			})
+		}},
 	}
 	base := lower(t, valSrc)
 	h := Hash(base)
